@@ -8,8 +8,8 @@
           failing operations are stuttering;      C15  as_minimization ranks states identically, idempotent;
      WF   AbsI(RawOf(I)) = I  (the abstraction used by the judge loses nothing the operators look at). *)
 EXTENDS Inst
-CONSTANT MaxOps
-VARIABLES inst, n
+CONSTANTS MaxOps, MaxNew      \* history length; how many id-creating calls (log-encode, slack) one history may contain
+VARIABLES inst, n, made
 V(k, b) == [kind |-> k, bound |-> b, fixed |-> <<>>, meta |-> [name |-> <<>>, subs |-> <<>>, params |-> <<>>, desc |-> <<>>]]
 B(lo, hi) == << [lo |-> lo, hi |-> hi] >>
 M0 == [name |-> <<>>, subs |-> <<>>, params |-> <<>>, desc |-> <<>>]
@@ -23,16 +23,26 @@ I0 == [sense |-> "max",
        cons |-> (10 :> [f |-> F1, eq |-> "le", meta |-> M0] @@ 11 :> [f |-> F2, eq |-> "eq", meta |-> M0] @@ 12 :> [f |-> F3, eq |-> "le", meta |-> M0]),
        active |-> {10, 11}, removed |-> (12 :> [reason |-> "r0", rparams |-> <<>>]), deps |-> <<>>,
        params |-> <<>>, hints |-> <<>>, parameters |-> <<>>]
-Grid == [ {1, 2, 3} -> {R(0), R(1), R(2)} ]
 Restrict2(f, S) == [ x \in S |-> f[x] ]
+\* evaluation grid: the three original variables range over {0,1,2}; a variable created on the way (log-encoding bit, slack)
+\* ranges over the integers of its bound (at most the first four)
+VarVals(I, v) == IF v \in {1, 2, 3} THEN {R(0), R(1), R(2)}
+                 ELSE LET b == EffBound(I.vars[v])  lo == RCeil(b.lo)  hi == RFloor(b.hi) IN { R(k) : k \in lo..(IF hi > lo + 3 THEN lo + 3 ELSE hi) }
+GridVars(I) == { v \in DOMAIN I.vars \ {4} : I.vars[v].fixed = <<>> /\ v \notin DOMAIN I.deps } \cup {1, 2, 3}
+RECURSIVE GridOver(_,_)
+GridOver(I, S) == IF S = {} THEN { <<>> }
+                  ELSE LET v == CHOOSE x \in S : TRUE IN { (v :> x) @@ g : x \in VarVals(I, v), g \in GridOver(I, S \ {v}) }
+Grid(I) == GridOver(I, GridVars(I))
+\* for the pairwise ranking check: created variables at their lowest value only
+PairGrid(I) == { g \in Grid(I) : \A v \in DOMAIN g \ {1, 2, 3} : g[v] = R(RCeil(EffBound(I.vars[v]).lo)) }
 Parts == { [v \in S |-> x] : S \in {{1}, {2}, {3}, {1, 3}}, x \in {R(0), R(1)} }
 Repls == { (1 :> PAdd(X2, PConst(One))), (3 :> PMul(X1, X2)) }
 Weights == {R(0), R(2), <<1,2>>}
 Sol(I, st) == IF SolRejects(RawOf(I), st) THEN [ok |-> FALSE] ELSE [ok |-> TRUE] @@ SolOf(RawOf(I), st)
 NotFixed(I, S) == \A v \in S : I.vars[v].fixed = <<>>
-Free(I) == { v \in {1, 2, 3} : I.vars[v].fixed = <<>> /\ v \notin DOMAIN I.deps }
+Free(I) == { v \in DOMAIN I.vars \ {4} : I.vars[v].fixed = <<>> /\ v \notin DOMAIN I.deps }
 \* C03: I -> J fixing s1; for every grid state extending s1
-CheckPartial(I, J, s1) == \A st \in Grid :
+CheckPartial(I, J, s1) == \A st \in Grid(I) :
    (Restrict2(st, DOMAIN s1) = s1) =>
       LET dom == Free(I)  full == Restrict2(st, dom)  rest == Restrict2(st, dom \ DOMAIN s1)
           a == Sol(I, full)  b == Sol(J, rest) IN
@@ -41,13 +51,13 @@ CheckTwoStep(I, s1) == \A v \in DOMAIN s1 :
    LET sa == Restrict2(s1, {v})  sb == Restrict2(s1, DOMAIN s1 \ {v}) IN
    PartialEvaluate(PartialEvaluate(I, sa), sb) = PartialEvaluate(I, s1)
 \* C14
-CheckMove(I, J) == \A st \in Grid : LET full == Restrict2(st, Free(I))  a == Sol(I, full)  b == Sol(J, full) IN
+CheckMove(I, J) == \A st \in Grid(I) : LET full == Restrict2(st, Free(I))  a == Sol(I, full)  b == Sol(J, full) IN
       a.ok = b.ok /\ (a.ok => { [id |-> c.id, value |-> c.value, eq |-> c.eq] : c \in a.cons } = { [id |-> c.id, value |-> c.value, eq |-> c.eq] : c \in b.cons }
                               /\ a.feasible = b.feasible /\ a.objective = b.objective /\ a.state = b.state)
-RelaxedDependsOnActive(I) == \A st \in Grid : LET full == Restrict2(st, Free(I))  a == Sol(I, full) IN
+RelaxedDependsOnActive(I) == \A st \in Grid(I) : LET full == Restrict2(st, Free(I))  a == Sol(I, full) IN
       a.ok => (a.relaxed <=> \A c \in I.active : Feas(I.cons[c].eq, PEval(I.cons[c].f, full)))
 \* C04: I -> J substituting r; the solution of J at a state over the remaining variables equals that of I at the extended state
-CheckSubst(I, J, r) == \A st \in Grid :
+CheckSubst(I, J, r) == \A st \in Grid(I) :
    LET dom == Free(I) \ DOMAIN r   rest == Restrict2(st, dom)
        ext == [ v \in dom \cup DOMAIN r |-> IF v \in DOMAIN r THEN PEval(r[v], rest) ELSE rest[v] ]
        b == Sol(J, rest) IN
@@ -59,25 +69,58 @@ CheckSubst(I, J, r) == \A st \in Grid :
 CheckPenalty(I) ==
   LET pid == [c \in I.active |-> 100 + c]  P == Penalty(I, pid)  U == UniformPenalty(I, 99) IN
   /\ P.active = {} /\ DOMAIN P.cons = DOMAIN I.cons /\ P.cons = I.cons /\ \A c \in DOMAIN I.removed : P.removed[c] = I.removed[c]
-  /\ \A st \in Grid : \A w \in [I.active -> Weights] :
+  /\ \A st \in Grid(I) : \A w \in [I.active -> Weights] :
         LET full == Restrict2(st, Free(I))
             wst == [ v \in DOMAIN full \cup { pid[c] : c \in I.active } |-> IF v \in DOMAIN full THEN full[v] ELSE w[CHOOSE c \in I.active : pid[c] = v] ] IN
         (PEval(I.obj, full) # Err) =>
           /\ PEval(P.obj, wst) = RAdd(PEval(I.obj, full), RSumSet(I.active, LAMBDA c : RMul(w[c], RMul(PEval(I.cons[c].f, full), PEval(I.cons[c].f, full)))))
           /\ LET Q == WithParameters(P, [ p \in { pid[c] : c \in I.active } |-> w[CHOOSE c \in I.active : pid[c] = p] ]) IN
              PEval(Q.obj, full) = PEval(P.obj, wst) /\ Q.active = {} /\ DOMAIN Q.parameters = {}
-  /\ \A st \in Grid : \A w \in Weights :
+  /\ \A st \in Grid(I) : \A w \in Weights :
         LET full == Restrict2(st, Free(I))  wst == [ v \in DOMAIN full \cup {99} |-> IF v = 99 THEN w ELSE full[v] ] IN
         (PEval(I.obj, full) # Err) =>
           PEval(U.obj, wst) = RAdd(PEval(I.obj, full), RMul(w, RSumSet(I.active, LAMBDA c : RMul(PEval(I.cons[c].f, full), PEval(I.cons[c].f, full)))))
 \* C15
 CheckAsMin(I) == LET J == AsMin(I) IN
   /\ J.sense = "min" /\ AsMin(J) = J /\ J.cons = I.cons /\ J.vars = I.vars /\ J.active = I.active
-  /\ \A s, t \in Grid : LET fs == Restrict2(s, Free(I))  ft == Restrict2(t, Free(I))
+  /\ \A s, t \in PairGrid(I) : LET fs == Restrict2(s, Free(I))  ft == Restrict2(t, Free(I))
                             a == PEval(I.obj, fs)  b == PEval(I.obj, ft)  a2 == PEval(J.obj, fs)  b2 == PEval(J.obj, ft) IN
         (a # Err /\ b # Err) => ((IF I.sense = "max" THEN RLess(b, a) ELSE RLess(a, b)) <=> RLess(a2, b2))
+\* C12 (+C04): log-encode v and substitute the encoding.  The encoding takes exactly the integers of v's bound; for every
+\* assignment of the other free variables and every bit pattern the encoded instance evaluates like the original at the
+\* decoded value, and reports the decoded value for v.
+CheckEncode(I, J, v, r) ==
+  LET b == I.vars[v].bound[1]  lo == RCeil(b.lo)  hi == RFloor(b.hi)
+      pats == [ r.bits -> {Zero, One} ] IN
+  /\ { PEval(r.enc, p) : p \in pats } = { R(k) : k \in lo..hi }
+  /\ r.bits \cap DOMAIN I.vars = {} /\ Ids(r.enc) \subseteq r.bits
+  /\ \A st \in Grid(I) : \A p \in pats :
+        LET rest == Restrict2(st, Free(I) \ {v})
+            orig == [ x \in DOMAIN rest \cup ({v} \cap Free(I)) |-> IF x = v THEN PEval(r.enc, p) ELSE rest[x] ]
+            a == Sol(I, orig)  bb == Sol(J, rest @@ p) IN
+        a.ok => /\ bb.ok /\ bb.objective = a.objective /\ bb.feasible = a.feasible /\ bb.relaxed = a.relaxed
+                /\ { [id |-> c.id, value |-> c.value] : c \in bb.cons } = { [id |-> c.id, value |-> c.value] : c \in a.cons }
+                /\ bb.state[v] = PEval(r.enc, p)
+\* C13: the conversion keeps the feasible set of the converted constraint (every grid point: f <= 0 holds iff some slack
+\* value in the new variable's bound satisfies the equality), changes nothing else, and "relaxed"/"infeasible" outcomes are
+\* justified on the whole grid
+CheckSlack(I, c, o) ==
+  LET f == I.cons[c].f
+      pts == { Restrict2(st, Free(I)) : st \in Grid(I) }
+      inbox(x) == \A v \in Ids(f) : In(x[v], EffBound(I.vars[v]))
+      holds(x) == Feas("le", PEval(f, x)) IN
+  CASE o.tag = "infeasible" -> \A x \in pts : inbox(x) => ~holds(x)
+    [] o.tag = "relaxed" -> /\ \A x \in pts : inbox(x) => holds(x)
+                            /\ CheckMove(I, o.inst)
+    [] o.tag = "converted" ->
+         LET J == o.inst  s == o.slack  sb == J.vars[s].bound[1]  g == J.cons[c].f IN
+         /\ [J EXCEPT !.vars = I.vars, !.cons = I.cons] = I /\ \A k \in DOMAIN I.cons \ {c} : J.cons[k] = I.cons[k]
+         /\ \A v \in DOMAIN I.vars : J.vars[v] = I.vars[v]
+         /\ \A x \in pts : inbox(x) =>
+               (holds(x) <=> \E k \in RCeil(sb.lo)..RFloor(sb.hi) : Feas("eq", PEval(g, x @@ (s :> R(k)))))
+    [] OTHER -> TRUE
 RoundTrip(I) == AbsI(RawOf(I)) = I
-Init == inst = I0 /\ n = 0
+Init == inst = I0 /\ n = 0 /\ made = 0
 DoPartial == \E s1 \in Parts : DOMAIN s1 \subseteq Free(inst) /\ inst' = PartialEvaluate(inst, s1)
                 /\ Assert(CheckPartial(inst, inst', s1), <<"C03 partial/evaluate do not commute", s1>>)
                 /\ Assert(CheckTwoStep(inst, s1), <<"C03 two-step", s1>>)
@@ -88,9 +131,19 @@ DoRestore == \E c \in DOMAIN inst.removed \cup {99} :
 DoSubst == \E r \in Repls : DOMAIN r \subseteq Free(inst) /\ (\A v \in DOMAIN r : Ids(r[v]) \subseteq Free(inst) \ DOMAIN r)
              /\ inst' = Substitute(inst, r) /\ Assert(CheckSubst(inst, inst', r), <<"C04 substitution", r>>)
 DoAsMin == inst' = AsMin(inst)
-Next == n < MaxOps /\ n' = n + 1 /\ (DoPartial \/ DoRelax \/ DoRestore \/ DoSubst \/ DoAsMin)
+\* the id-creating calls (at most MaxNew of them in one history keeps the grids small)
+DoEncode == \E v \in {1, 4} : /\ CanEncode(inst, v) /\ inst.vars[v].fixed = <<>> /\ v \notin DOMAIN inst.deps
+              /\ LET r == LogEncodeRef(inst, v)  J == Substitute(r.inst, v :> r.enc) IN
+                 inst' = J /\ Assert(CheckEncode(inst, J, v, r), <<"C12/C04 log-encode then substitute", v>>)
+DoSlack == \E c \in inst.active : /\ CanSlack(inst, c)
+              /\ LET o == SlackConvertRef(inst, c) IN
+                 inst' = o.inst /\ Assert(CheckSlack(inst, c, o), <<"C13 integer slack", c, o.tag>>)
+Next == /\ n < MaxOps /\ n' = n + 1
+        /\ \/ made' = made /\ (DoPartial \/ DoRelax \/ DoRestore \/ DoSubst \/ DoAsMin)
+           \/ made < MaxNew /\ made' = made + 1 /\ (DoEncode \/ DoSlack)
 Conserved == DOMAIN inst.cons = inst.active \cup DOMAIN inst.removed /\ inst.active \cap DOMAIN inst.removed = {}
-           /\ { <<c, inst.cons[c].eq>> : c \in DOMAIN inst.cons } = { <<c, I0.cons[c].eq>> : c \in DOMAIN I0.cons }
+           /\ DOMAIN inst.cons = DOMAIN I0.cons
+           /\ \A c \in DOMAIN inst.cons : inst.cons[c].eq = I0.cons[c].eq \/ (I0.cons[c].eq = "le" /\ inst.cons[c].eq = "eq")   \* only a slack conversion changes a kind
 PenaltyOK == CheckPenalty(inst)
 AsMinOK == CheckAsMin(inst)
 RelaxedOK == RelaxedDependsOnActive(inst)
